@@ -116,6 +116,16 @@ fn me(o: &mut Obs, m: &ME) {
         ME::AircraftOperationalCoordination(_) => o.push(("me.tc", V::U(30))),
         ME::AircraftIdentification(id) => {
             o.push(("me.tc", V::U(id.tc as u64)));
+            o.push((
+                "me.ident.tc_letter",
+                V::S(match id.tc {
+                    adsb_deku::adsb::TypeCoding::D => "D",
+                    adsb_deku::adsb::TypeCoding::C => "C",
+                    adsb_deku::adsb::TypeCoding::B => "B",
+                    adsb_deku::adsb::TypeCoding::A => "A",
+                }
+                .to_string()),
+            ));
             o.push(("me.ident.ca", V::U(u64::from(id.ca))));
             o.push(("me.ident.cn", V::S(id.cn.clone())));
         }
